@@ -99,7 +99,7 @@ def clustering_precondition(ctx, rule='C08-R2'):
     umbrella = 'ampycloud.cluster.clusterize'
     wf = p.func(wrapper, rule)
     p.func(umbrella, rule)
-    fits = [e for e in fx.own_events(wrapper) if e.kind == 'call' and tag(e.call) == 'mcall'
+    fits = [e for e in fx.deep_events(wrapper) if e.kind == 'call' and tag(e.call) == 'mcall'
             and e.call[2] in ('fit', 'fit_predict') and T.contains(
                 e.call[1], lambda x: x == ('g', 'sklearn.cluster.AgglomerativeClustering'))]
     ctx.floor(rule, 'AgglomerativeClustering.fit call sites', len(fits), 1)
@@ -135,7 +135,7 @@ def mixture_preconditions(ctx, rule='C08-R2'):
     p = ctx.project
     ncomp = 'ampycloud.layer.ncomp_from_gmm'
     f = p.func(ncomp, rule)
-    evs = fx.own_events(ncomp)
+    evs = fx.deep_events(ncomp)
     # (d) np.min(res[res > 0]) needs two distinct values: early return on a single distinct value
     mins = [e for e in evs if e.kind == 'call' and call_head(e) in ('numpy.min', 'numpy.nanmin', 'builtins.min')
             and e.call[2] and tag(T.peel(e.call[2][0])) == 'mask']
@@ -281,7 +281,7 @@ def fluffer_precondition(ctx, rule='C08-R2'):
     p = ctx.project
     q = 'ampycloud.fluffer.get_fluffiness'
     f = p.func(q, rule)
-    low = [e for e in fx.own_events(q) if e.kind == 'call' and (call_head(e) or '').endswith('.lowess')]
+    low = [e for e in fx.deep_events(q) if e.kind == 'call' and (call_head(e) or '').endswith('.lowess')]
     ctx.floor(rule, 'LOWESS call sites', len(low), 1)
     pts = ('p', f.params[0])
     for e in low:
@@ -308,7 +308,7 @@ def percentile_precondition(ctx, rule='C08-R2'):
     p = ctx.project
     q = 'ampycloud.utils.utils.calc_base_height'
     p.func(q, rule)
-    pct = [e for e in fx.own_events(q) if e.kind == 'call' and call_head(e) in (
+    pct = [e for e in fx.deep_events(q) if e.kind == 'call' and call_head(e) in (
         'numpy.percentile', 'numpy.nanpercentile', 'numpy.quantile')]
     ctx.floor(rule, 'percentile call in calc_base_height', len(pct), 1)
     for e in pct:
@@ -318,7 +318,7 @@ def percentile_precondition(ctx, rule='C08-R2'):
         ctx.check(ok, rule, q, e.node, e.loc(),
                   'the percentile is taken without the empty-selection refusal (AmpycloudError) dominating it',
                   instance='calc_base_height: empty selection refused before the percentile')
-    raises = [e for e in fx.own_events(q) if e.kind == 'raise']
+    raises = [e for e in fx.deep_events(q) if e.kind == 'raise']
     ctx.check(bool(raises), rule, q, 'calc_base_height', p.funcs[q].loc(),
               'empty look-back selection is not refused', instance='calc_base_height: raises on empty')
 
@@ -326,18 +326,15 @@ def percentile_precondition(ctx, rule='C08-R2'):
 def okta_is_python_int(ctx, rule='C08-R2'):
     """wmo.okta2code refuses anything that is not a Python int: every value stored in an okta cell must
     be one (a NumPy integer would make run() die with 'val should be of type int')."""
-    fx = effects(ctx)
-    p = ctx.project
-    q = 'ampycloud.data.CeiloChunk._calculate_cloud_amount'
-    p.func(q, rule)
-    stores = [e for e in fx.own_events(q) if e.kind == 'store' and tag(e.target) == 'cell'
-              and e.target[3] == 'okta']
+    from sa.rules.tablemodel import table_history, sets_of, is_cast
+    m, ex, s, st, ops = table_history(ctx, 'layers', rule)
+    stores = [o for o in sets_of(ops, 'okta') if not is_cast(o)]
     ctx.floor(rule, 'stores to the okta cell', len(stores), 3)
-    for e in stores:
-        v = e.value
+    for o in stores:
+        v = o.value
         ok = (T.is_const(v) and type(v[1]) is int) or \
             (tag(v) == 'call' and v[1] == ('g', 'builtins.int'))
-        ctx.check(ok, rule, q, e.node, e.loc(),
+        ctx.check(ok, rule, m.qname, m.node.name, m.loc(),
                   f'okta cell receives {T.show(v, maxlen=80)}, which is not a Python int: okta2code() will '
                   'refuse it when the code is assembled', instance=f'okta := {T.show(v, maxlen=40)}')
 
@@ -387,7 +384,7 @@ def chunk_never_empty(ctx, rule='C08-R2'):
     p = ctx.project
     q = 'ampycloud.data.AbstractChunk._cleanup_pdf'
     f = p.func(q, rule)
-    evs = fx.own_events(q)
+    evs = fx.deep_events(q)
     removers = []
     for e in evs:
         c = None
@@ -411,9 +408,19 @@ def chunk_never_empty(ctx, rule='C08-R2'):
         if cond is not None and tag(cond) == 'attr' and cond[2] == 'empty':
             refusals.append(e)
     ctx.floor(rule, 'row removals in _cleanup_pdf', len(removers), 1)
+    from sa.rules.flag import strip_updates
     for e in removers:
         ok = any(r.seq > e.seq for r in refusals)
-        ctx.check(ok, rule, q, e.node, e.loc(),
+        c = e.value if e.kind == 'assign' else e.call
+        what = c[3][0] if tag(c) == 'mcall' and c[3] else (c[2] if tag(c) == 'mask' else None)
+        sel = [x for x in T.walk(what) if tag(x) == 'mask'] if what is not None else []
+        cond = strip_updates(sel[0][2]) if sel else (strip_updates(what) if what is not None else None)
+        if sel and cond is not None:
+            cond = T.subst(cond, {strip_updates(sel[0][1]): ('g', 'DATA')})
+        # the finding is identified by WHAT is removed (the normalised row condition), not by how the
+        # statement is spelled, so that renaming a local does not turn a known finding into a new one
+        key = 'row removal of ' + (T.show(cond, maxlen=250) if cond is not None else e.text()[:80])
+        ctx.check(ok, rule, q, key, e.loc(),
                   'rows are removed from the screened frame and nothing refuses an empty result: a frame whose hits are '
                   'all of type >= 2 above MSA + MSA_HIT_BUFFER (legal: a type-2 hit without its type-1 hit is a '
                   'warning-only anomaly) is cropped to nothing, and find_slices() then dies with a pandas ValueError '
